@@ -440,6 +440,32 @@ def _mk_solver(timeout_ms):
     return s
 
 
+def zcheck(s, *assumptions, ms=None):
+    """solver.check with a watchdog: z3's own timeout is not honoured inside some
+    nonlinear loops, so a timer thread interrupts the context shortly after it."""
+    import threading
+    ms = ms or Z3_FEAS_TIMEOUT_MS
+    fired = []
+
+    def _int():
+        fired.append(1)
+        try:
+            z3.main_ctx().interrupt()
+        except Exception:
+            pass
+    tm = threading.Timer(ms / 1000.0 + 0.5, _int)
+    tm.daemon = True
+    tm.start()
+    try:
+        try:
+            r = s.check(*assumptions)
+        except z3.Z3Exception:
+            r = z3.unknown
+    finally:
+        tm.cancel()
+    return r
+
+
 def _recip_encode(fmls):
     """replace every distinct denominator D by a fresh inv_D with inv_D*D = 1"""
     cache = {}
@@ -473,56 +499,62 @@ class Verdict(object):
         self.how = how
 
 
+def _has_div(fmls):
+    seen = set()
+    stack = list(fmls)
+    while stack:
+        e = stack.pop()
+        i = e.get_id()
+        if i in seen:
+            continue
+        seen.add(i)
+        if z3.is_app(e):
+            if e.decl().kind() == z3.Z3_OP_DIV and not z3.is_rational_value(e.arg(1)):
+                return True
+            stack.extend(e.children())
+    return False
+
+
+def _try(kind, fmls, timeout_ms):
+    if kind == "plain":
+        s = _mk_solver(timeout_ms)
+    else:
+        s = z3.Then("simplify", "purify-arith", "qfnra-nlsat").solver()
+        s.set("timeout", int(timeout_ms))
+    s.add(*fmls)
+    r = zcheck(s, ms=timeout_ms)
+    return r, (s.model() if r == z3.sat else None)
+
+
 def solve(fmls, timeout_ms=Z3_VERDICT_TIMEOUT_MS, want_model=True):
-    """portfolio: plain -> nlsat tactic -> reciprocal encoding.  First definite answer wins."""
+    """portfolio with escalating budgets: plain(short) -> nlsat tactic -> reciprocal-variable
+    encoding (plain, nlsat) -> plain(full).  First definite answer wins."""
     t0 = time.time()
     attempts = []
-    # 1 plain
-    s = _mk_solver(timeout_ms)
-    s.add(*fmls)
-    r = s.check()
-    attempts.append("plain:%s" % r)
-    if r == z3.unsat:
-        return Verdict("unsat", None, time.time() - t0, ",".join(attempts))
-    if r == z3.sat:
-        return Verdict("sat", s.model(), time.time() - t0, ",".join(attempts))
-    # 2 tactic
-    try:
-        t = z3.Then("simplify", "purify-arith", "qfnra-nlsat")
-        s2 = t.solver()
-        s2.set("timeout", int(timeout_ms))
-        s2.add(*fmls)
-        r = s2.check()
-        attempts.append("nlsat:%s" % r)
+    fmls = list(fmls)
+    short = min(2000, timeout_ms)
+    stages = [("plain", fmls, short), ("nlsat", fmls, timeout_ms)]
+    enc = None
+    if _has_div(fmls):
+        try:
+            enc = _recip_encode(fmls)
+        except z3.Z3Exception:
+            enc = None
+        if enc is not None:
+            stages = [("plain", enc, short), ("nlsat", enc, min(5000, timeout_ms)), ("plain", fmls, short),
+                      ("nlsat", fmls, min(5000, timeout_ms)), ("nlsat", enc, timeout_ms), ("plain", enc, timeout_ms)]
+    stages.append(("plain", fmls, timeout_ms))
+    for kind, f, to in stages:
+        try:
+            r, m = _try(kind, f, to)
+        except z3.Z3Exception:
+            attempts.append("%s:exc" % kind)
+            continue
+        attempts.append("%s%s:%s" % (kind, "+recip" if f is enc else "", r))
         if r == z3.unsat:
             return Verdict("unsat", None, time.time() - t0, ",".join(attempts))
         if r == z3.sat:
-            return Verdict("sat", s2.model(), time.time() - t0, ",".join(attempts))
-    except z3.Z3Exception as e:
-        attempts.append("nlsat:exc")
-    # 3 reciprocal
-    try:
-        enc = _recip_encode(list(fmls))
-        s3 = _mk_solver(timeout_ms)
-        s3.add(*enc)
-        r = s3.check()
-        attempts.append("recip:%s" % r)
-        if r == z3.unsat:
-            return Verdict("unsat", None, time.time() - t0, ",".join(attempts))
-        if r == z3.sat:
-            return Verdict("sat", s3.model(), time.time() - t0, ",".join(attempts))
-        t = z3.Then("simplify", "purify-arith", "qfnra-nlsat")
-        s4 = t.solver()
-        s4.set("timeout", int(timeout_ms))
-        s4.add(*enc)
-        r = s4.check()
-        attempts.append("recip-nlsat:%s" % r)
-        if r == z3.unsat:
-            return Verdict("unsat", None, time.time() - t0, ",".join(attempts))
-        if r == z3.sat:
-            return Verdict("sat", s4.model(), time.time() - t0, ",".join(attempts))
-    except z3.Z3Exception:
-        attempts.append("recip:exc")
+            return Verdict("sat", m, time.time() - t0, ",".join(attempts))
     return Verdict("unknown", None, time.time() - t0, ",".join(attempts))
 
 
@@ -665,7 +697,7 @@ class Ctx(object):
         # an assumption may contradict the path: check now so that no code runs
         # under an unsatisfiable condition
         t0 = time.time()
-        r = self._solver.check()
+        r = zcheck(self._solver)
         self.solver_time += time.time() - t0
         self.feas_queries += 1
         if r == z3.unsat:
@@ -703,7 +735,7 @@ class Ctx(object):
 
     def _check(self, extra):
         t0 = time.time()
-        r = self._solver.check(extra)
+        r = zcheck(self._solver, extra, ms=1500)
         self.solver_time += time.time() - t0
         self.feas_queries += 1
         if r == z3.unknown:
@@ -770,17 +802,25 @@ class Ctx(object):
             self.obligations.append(Obligation(label, "unsat", 0.0, "simplify"))
             return True
         from . import theory
-        # fast path: the incremental path solver often refutes the negation at once
-        t0 = time.time()
-        r0 = self._solver.check(z3.Not(z))
-        dt0 = time.time() - t0
-        self.solver_time += dt0
-        if r0 == z3.unsat:
-            self.obligations.append(Obligation(label, "unsat", dt0, "incremental"))
-            return True
-        fmls = self.pc + [z3.Not(z)]
-        ax = theory.instantiate(fmls, self.ex.verdict_timeout_ms)
-        v = solve(fmls + ax, timeout_ms=self.ex.verdict_timeout_ms)
+        conjuncts = list(z.children()) if (z3.is_and(z) and z.num_args() > 1) else [z]
+        v = None
+        tot = 0.0
+        hows = []
+        for zc in conjuncts:
+            if len(conjuncts) > 1:
+                if z3.is_true(z3.simplify(zc)):
+                    continue
+            fmls = self.pc + [z3.Not(zc)]
+            ax = theory.instantiate(fmls, self.ex.verdict_timeout_ms)
+            v = solve(fmls + ax, timeout_ms=self.ex.verdict_timeout_ms)
+            tot += v.secs
+            hows.append(v.how)
+            if v.status != "unsat":
+                break
+        if v is None or v.status == "unsat":
+            v = Verdict("unsat", None, tot, ";".join(hows)[:200])
+        else:
+            v.secs = tot
         self.solver_time += v.secs
         mv = None
         if v.status == "sat":
